@@ -29,6 +29,11 @@ CHECKS = {
                 text="class-balanced: chunk lengths sum to samples_per_class per class (invariant + termination), weighted: no repeats / valid indices from the multinomial axiom, "
                      "length modes of the semi sampler; evenness, pool exhaustion and alternation only bounded (stated in evidence)",
                 note=TRUST),
+    "C15": dict(level="proof", technique="relational (two-run) contract verification of every _scale_strength on reals (AST->SMT, z3+cvc5); ghost call maps for forwarding; bounded zoo",
+                text="each leaf scaling function is executed twice symbolically on receivers that agree only on the constructed values: factor 1 restores, factor 0 collapses to the identity, "
+                     "monotone in between, independent of the previous state (no compounding); forwards reach every member with the unchanged factor (loop invariant over the member list); "
+                     "the scheduled transform passes Sched((k // B) * W + r) and writes it to ctx; n_batches per budget kind",
+                note=TRUST + "; floats as reals (inf/nan magnitudes outside the model); DataLoader round-robin assignment assumed"),
 }
 PENDING = "check not built yet in this round (work in progress, see DESIGN.md Appendix B)"
 NOT_APPLICABLE = {f"C{i:02d}": PENDING for i in range(1, 21)}
